@@ -409,7 +409,7 @@ def _enum_next(m, st, callee, args, t):
     return m.world.enumerate_next(m, st, args[0])
 
 
-@model("core::iter::traits::iterator::Iterator::nth")
+@model("core::iter::traits::iterator::Iterator::nth", "<core::iter::adapters::skip::Skip<I> as core::iter::traits::iterator::Iterator>::nth", "<core::str::iter::Chars<'a> as core::iter::traits::iterator::Iterator>::nth")
 def _nth(m, st, callee, args, t):
     return m.world.iter_nth(m, st, args[0], args[1])
 
@@ -521,3 +521,69 @@ def _is_ok_and(m, st, callee, args, t):
     if o.variant != good:
         return boolean(False)
     return _with_post(m, st, args[1], [o.fields[0]], t, lambda mm, ss, v: v)
+
+
+# ------------------------------------------------------------------------------- integer helpers
+def _checked(opname):
+    def f(m, st, callee, args, t):
+        a, b = args
+        if isinstance(a, I) and isinstance(b, I):
+            r = a.v - b.v if opname == "sub" else a.v + b.v
+            from .interp import int_range
+
+            lo, hi = int_range(a.ty)
+            return some(I(r, a.ty)) if lo <= r <= hi else none()
+        if isinstance(a, Sym) and isinstance(b, I) and opname == "sub":
+            if compare(st, "Ge", a, b, m.world):
+                return some(m.binop(st, "Sub", a, b))
+            return none()
+        return None
+
+    return f
+
+
+def _saturating_sub(m, st, callee, args, t):
+    a, b = args
+    if isinstance(a, I) and isinstance(b, I):
+        return I(max(a.v - b.v, 0), a.ty)
+    if isinstance(a, Sym) and isinstance(b, I):
+        if compare(st, "Ge", a, b, m.world):
+            return m.binop(st, "Sub", a, b)
+        return I(0, a.ty)
+    return None
+
+
+for _ty in ("usize", "u32", "u64", "u8", "u16"):
+    MODELS["core::num::<impl %s>::checked_sub" % _ty] = _checked("sub")
+    MODELS["core::num::<impl %s>::checked_add" % _ty] = _checked("add")
+    MODELS["core::num::<impl %s>::saturating_sub" % _ty] = _saturating_sub
+
+
+@model("core::option::Option::<T>::and_then")
+def _opt_and_then(m, st, callee, args, t):
+    r = need_adt(m, st, args[0], "and_then")
+    if r.variant == 0:
+        return r
+    return _with_post(m, st, args[1], [r.fields[0]], t, lambda mm, ss, v: v)
+
+
+@model("core::option::Option::<T>::filter")
+def _opt_filter(m, st, callee, args, t):
+    r = need_adt(m, st, args[0], "filter")
+    if r.variant == 0:
+        return r
+    inner = r.fields[0]
+    return _with_post(m, st, args[1], [Ref(("val", inner))], t, lambda mm, ss, v: r if mm.truth(ss, v) else none())
+
+
+@model("core::option::Option::<T>::copied", "core::option::Option::<T>::cloned")
+def _opt_copied(m, st, callee, args, t):
+    r = need_adt(m, st, args[0], "copied")
+    if r.variant == 0:
+        return r
+    return some(deref(m, st, r.fields[0]))
+
+
+@model("core::iter::traits::iterator::Iterator::skip")
+def _skip(m, st, callee, args, t):
+    return Opq("skip", (args[0], args[1]))
